@@ -117,6 +117,20 @@ pub fn entry_points<F: Family>(p: &F::Packet, t: &mut Tape, ctx: &mut Ctx) -> Ca
         }
         ctx.label("async-sink-interrupted-mid-call");
     }
+    // a sink that dies after k bytes (the peer has gone: BrokenPipe, ConnectionReset, ...): whatever the packet, a call
+    // that reports success has delivered the whole encoding
+    {
+        let k = t.pick(bytes.len());
+        let kind = [std::io::ErrorKind::BrokenPipe, std::io::ErrorKind::ConnectionReset, std::io::ErrorKind::ConnectionAborted, std::io::ErrorKind::NotConnected, std::io::ErrorKind::TimedOut, std::io::ErrorKind::Other][t.pick(6)];
+        let mut w = ScriptedWriter::new(&[], bytes.len() + 16);
+        w.fault = Some((k, kind));
+        let (r, _) = sio::drive(F::encode_async(p, &mut w), bytes.len() + 32);
+        if r.is_ok() {
+            viol!("encode_async into a sink that fails with {:?} after {} of {} bytes reported success; the sink holds {}; packet {}", kind, k, bytes.len(), hex_short(&w.out, 48), fam::render(p));
+        }
+        ensure!(bytes.starts_with(&w.out), "encode_async into a sink that fails after {} bytes wrote {}, not a prefix of {}", k, hex_short(&w.out, 48), hex_short(&bytes, 48));
+        ctx.label("sink-dies-mid-packet");
+    }
     let partial = steps.iter().any(|s| matches!(s, WStep::Accept(k) if *k < bytes.len()));
     let pending = steps.iter().any(|s| *s == WStep::Pending);
     match async_into::<F>(p, &steps, false, bytes.len()) {
